@@ -38,6 +38,7 @@ type bareResult struct {
 	TwoControllers bool
 	Handled        int // items whose slot said "finished" when the caller read the results after normal termination
 	ResultsRead    bool
+	RoughRead      bool // ... and the discipline had been ended by Stop() / cancel (v1 Simple)
 }
 
 // runPrioBare plays a PrioRealScenario without any instrumentation. It decides nothing itself.
@@ -387,8 +388,12 @@ wait:
 			break wait
 		}
 	}
-	if res.Terminated && !roughStop && first < 0 {
-		// the discipline ended on its own: the caller looks at what its handlers produced
+	if res.Terminated && ((!roughStop && first < 0) || sc.Ver == "v1s") {
+		// the discipline ended on its own: the caller looks at what its handlers produced.
+		// v1 Simple closes Err() only after its handler goroutines have returned, whichever way
+		// it ended (Stop, cancel): there the caller looks after a rough end too, while the
+		// Handle calls that were cut short are just finishing
+		res.RoughRead = roughStop || first >= 0
 		for _, row := range results {
 			for _, v := range row {
 				if v == 2 {
